@@ -276,9 +276,9 @@ Proof.
       same_queues. apply allq_set_queue; [apply qinv_new|sq].
   - (* MQBind *)
     destruct (alookup _ _ _); [|exact H]. destruct (seqb ex ""); [exact H|].
-    destruct (queue_found s q); [|exact H]. destruct (locked _ _); [exact H|]. destruct (bad_xmatch _); [exact H|]. cbn [fst]. sq.
+    destruct (queue_found s q); [|exact H]. destruct (locked _ _); [exact H|]. destruct (bad_xmatch _); [exact H|]. destruct (extype_eqb _ ExTopic && bad_pattern _)%bool; [exact H|]. cbn [fst]. sq.
   - (* MQUnbind *)
-    destruct (alookup _ _ _); [|exact H]. destruct (queue_found s q); [|exact H]. destruct (locked _ _); [exact H|]. destruct (bad_xmatch _); [exact H|]. cbn [fst]. sq.
+    destruct (alookup _ _ _); [|exact H]. destruct (queue_found s q); [|exact H]. destruct (locked _ _); [exact H|]. destruct (bad_xmatch _); [exact H|]. destruct (extype_eqb _ ExTopic && bad_pattern _)%bool; [exact H|]. cbn [fst]. sq.
   - (* MQPurge *)
     destruct (queue_found s q) as [qu|] eqn:Ef; [|exact H]. destruct (locked _ _); [exact H|]. cbn [fst].
     apply queue_found_get in Ef. pose proof (allq_get _ _ _ _ H Ef) as Hq.
